@@ -29,6 +29,7 @@ type Env struct {
 	pure    bool // inside a spec function: no state access
 	curFunc string
 	top0    string // allocation frontier that \top0 denotes (callee contracts: the pre-call frontier)
+	qdepth  int    // > 0 inside a quantifier body
 }
 
 func (e *Engine) baseEnv(fr *Frame, st *State) *Env {
@@ -330,6 +331,11 @@ func (env *Env) findCell(name string) *Cell {
 		if c := env.findCellIn(fr, name); c != nil {
 			return c
 		}
+		if c, ok := fr.freeCells[name]; ok {
+			if _, live := env.st.cells[c]; live {
+				return c
+			}
+		}
 	}
 	return nil
 }
@@ -551,6 +557,9 @@ func (env *Env) evalField(x EField) Val {
 				}
 				f := e.loadHeapFieldQuiet(env.st, pt.Elem(), v.T, []int{i})
 				f.Typ = ft
+				if env.qdepth == 0 && !strings.Contains(v.T, "_q") {
+					e.assumeWF(f, ft, nil) // range facts of the field's type (ground term)
+				}
 				return f
 			}
 		}
@@ -775,6 +784,24 @@ func (env *Env) evalCall(x ECall) Val {
 			cerr("malformed() on non-interface")
 		}
 		return boolv(e.malformedTerm(v))
+	case "pointee":
+		// pointee(p, T): p is the address of a variable of type *T (decided statically)
+		v := env.eval(x.Args[0])
+		tn, ok := x.Args[1].(EIdent)
+		if !ok {
+			cerr("pointee(p, T): T must be a type name")
+		}
+		if (v.K != KPtr && v.K != KIface) || v.P == nil || v.P.Typ == nil {
+			return boolv("false")
+		}
+		pt, isPtr := under(v.P.Typ).(*types.Pointer)
+		if !isPtr {
+			return boolv("false")
+		}
+		if n, isNamed := types.Unalias(pt.Elem()).(*types.Named); isNamed && n.Obj().Name() == tn.Name {
+			return boolv("true")
+		}
+		return boolv("false")
 	case "intof":
 		v := env.eval(x.Args[0])
 		if v.K != KIface {
@@ -810,8 +837,7 @@ func (env *Env) evalCall(x ECall) Val {
 		// the whole backing array of a slice, indexed absolutely
 		v0 := env.eval(x.Args[0])
 		if v0.K == KSlice {
-			cs := flat(sliceElem(v0.Typ))
-			if len(cs) != 1 || cs[0].Sort != "Int" {
+			if !isInteger(sliceElem(v0.Typ)) {
 				return Val{K: KSlice, Typ: v0.Typ, Fs: []Val{v0.Fs[0], intv("0"), intv(sx("+", v0.Fs[1].T, v0.Fs[2].T)), intv(sx("+", v0.Fs[1].T, v0.Fs[3].T))}}
 			}
 		}
@@ -965,10 +991,13 @@ func (env *Env) evalQuant(x EQuant) Val {
 	n := env
 	var vars []string
 	var guards []string
+	var names []string
 	for _, v := range x.Vars {
 		quantN++
 		name := fmt.Sprintf("%s_q%d", v, quantN)
+		names = append(names, name)
 		n = n.bind(v, intv(name))
+		n.qdepth++
 		vars = append(vars, fmt.Sprintf("(%s Int)", name))
 		if x.Lo != nil {
 			lo, hi := env.eval(x.Lo).T, env.eval(x.Hi).T
@@ -980,7 +1009,13 @@ func (env *Env) evalQuant(x EQuant) Val {
 		cerr("quantifier body must be boolean")
 	}
 	if x.Forall {
-		return boolv(fmt.Sprintf("(forall (%s) %s)", strings.Join(vars, " "), implies(and(guards...), body.T)))
+		rel := fmt.Sprintf("(forall (%s) %s)", strings.Join(vars, " "), implies(and(guards...), body.T))
+		if len(x.Vars) == 1 && x.Lo != nil {
+			if abs := absoluteForm(names[0], env.eval(x.Lo).T, env.eval(x.Hi).T, body.T); abs != "" {
+				return boolv(and(rel, abs))
+			}
+		}
+		return boolv(rel)
 	}
 	return boolv(fmt.Sprintf("(exists (%s) %s)", strings.Join(vars, " "), and(append(guards, body.T)...)))
 }
@@ -1004,4 +1039,80 @@ func (e *Engine) malformedTerm(v Val) string {
 		e.ctx.Global("err.malformed", fmt.Sprintf("(declare-fun err.wm (Int Int) Bool)\n(assert (forall ((v Int)) (! (not (err.wm 0 v)) :pattern ((err.wm 0 v)))))\n(define-fun err.malformed ((t Int) (v Int)) Bool (or (= t %d) (err.wm t v)))", tag))
 	}
 	return sx("err.malformed", v.Fs[0].T, v.Fs[1].T)
+}
+
+// absoluteForm restates "forall k in lo..hi :: P(x[k])" over the absolute index
+// j = off + k when every slice access in the body has the shape (+ OFF k) for one
+// offset term OFF.  Solvers normalise arithmetic inside index terms, so the
+// relative form is often not matched by E-matching while (select A j) is.
+func absoluteForm(k, lo, hi, body string) string {
+	pat := " " + k + ")"
+	off := ""
+	rest := body
+	for {
+		i := strings.Index(rest, pat)
+		if i < 0 {
+			break
+		}
+		// find the start of the enclosing "(+ OFF k)"
+		end := i + len(pat)
+		start := -1
+		d := 0
+		for j := end - 1; j >= 0; j-- {
+			switch rest[j] {
+			case ')':
+				d++
+			case '(':
+				d--
+				if d == 0 {
+					start = j
+				}
+			}
+			if start >= 0 {
+				break
+			}
+		}
+		if start < 0 {
+			return ""
+		}
+		expr := rest[start:end]
+		if strings.HasPrefix(expr, "(+ ") {
+			args := topLevelArgs(expr[3 : len(expr)-1])
+			if len(args) == 2 && args[1] == k {
+				if off == "" {
+					off = args[0]
+				} else if off != args[0] {
+					return ""
+				}
+			}
+		}
+		rest = rest[end:]
+	}
+	if off == "" || off == "0" || strings.Contains(off, k) {
+		return ""
+	}
+	quantN++
+	j := fmt.Sprintf("j_q%d", quantN)
+	nb := strings.ReplaceAll(body, "(+ "+off+" "+k+")", j)
+	nb = replaceIdent(nb, k, "(- "+j+" "+off+")")
+	return fmt.Sprintf("(forall ((%s Int)) (=> (and (<= (+ %s %s) %s) (< %s (+ %s %s))) %s))", j, off, lo, j, j, off, hi, nb)
+}
+
+// replaceIdent replaces whole-token occurrences of an identifier in an s-expression.
+func replaceIdent(s, id, by string) string {
+	var b strings.Builder
+	for i := 0; i < len(s); {
+		if strings.HasPrefix(s[i:], id) {
+			before := i == 0 || s[i-1] == ' ' || s[i-1] == '('
+			after := i+len(id) == len(s) || s[i+len(id)] == ' ' || s[i+len(id)] == ')'
+			if before && after {
+				b.WriteString(by)
+				i += len(id)
+				continue
+			}
+		}
+		b.WriteByte(s[i])
+		i++
+	}
+	return b.String()
 }
